@@ -95,7 +95,7 @@ TEXT = {
   "technique": "Coq proof (finite LTS of the fetch protocol by exhaustive case analysis lifted to rounds by induction; inversion of update) + differential correspondence under a fault matrix + goroutine/time monitors",
  },
  "C16": {
-  "level": "Generic theorems, proved once for any table: in an abstract reader/writer-mutex semantics with any number of threads, a lock held exclusively excludes every other holder; two accesses that share a lock, one of them exclusively, are never simultaneously enabled; if every racy pair of a table is in an excluded list then any two simultaneously enabled conflicting accesses are in that list; an acyclic lock-order graph yields a rank, and programs that acquire locks in increasing rank never deadlock (n threads). Two table theorems are re-checked on every run against the access table and lock-order edges regenerated from /repo's source: every racy pair is a listed known finding (only Engine.started remains), and the lock order is acyclic. The dynamic part runs the node's activities concurrently under the race detector and checks the quiescent state. Single-lock serializability is proved generically and instantiated on the pool: every interleaving of submissions and ticks equals a sequential order, and no admitted transaction is lost or duplicated. Interleavings between components: the three engine-driven operations are cut at their collaborator calls into a small machine (model/Interleave.v: V1..V4, A1..A4, U1..U3, one register per operation kind) whose steps may be interleaved arbitrarily; theorems: with fresh values the phase bodies are the atomic validate / pool_add / update; every schedule in which no sync round changes the chain state while a tick or a submission is in flight (sched_ok) ends in the state of a sequential history of the completed operations (linearisability), hence in a reachable state, so every invariant proved over reach (C01-C04, C07, C10, C12) holds after it; without that condition the statement is refuted by a concrete schedule (the stale tick view, recorded as a known finding on the real code). The machine is tied to the code by the sweep suite (scheduler-controlled runs of two real operations replayed on it). Schedules finer than the machine (a call taking effect inside AddBlock or inside the commit) and registry refreshes are monitored only: partial.",
+  "level": "Generic theorems, proved once for any table: in an abstract reader/writer-mutex semantics with any number of threads, a lock held exclusively excludes every other holder; two accesses that share a lock, one of them exclusively, are never simultaneously enabled; if every racy pair of a table is in an excluded list then any two simultaneously enabled conflicting accesses are in that list; an acyclic lock-order graph yields a rank, and programs that acquire locks in increasing rank never deadlock (n threads). Two table theorems are re-checked on every run against the access table and lock-order edges regenerated from /repo's source: every racy pair is a listed known finding (only Engine.started remains), and the lock order is acyclic. The dynamic part runs the node's activities concurrently under the race detector and checks the quiescent state. Single-lock serializability is proved generically and instantiated on the pool: every interleaving of submissions and ticks equals a sequential order, and no admitted transaction is lost or duplicated. Interleavings between components: the three engine-driven operations are cut at their collaborator calls into a small machine (model/Interleave.v: V1..V4, A1..A4, U1..U3, one register per operation kind) whose steps may be interleaved arbitrarily; theorems: with fresh values the phase bodies are the atomic validate / pool_add / update; every schedule in which each chain-changing commit of a sync round finds no tick in flight or installs a tip dated at or after that tick (AddBlock then refuses the tick), and finds no submission in flight or one that has made all its reads (sched_ok'), ends in the state of a sequential history of the completed operations (linearisability), and so does every prefix: every intermediate state is reachable, so every invariant proved over reach (C01-C04, C07, C10, C12) holds at every moment of it; outside that condition the statement is refuted by a concrete schedule (the stale tick view, recorded as a known finding on the real code). The machine is tied to the code by the sweep suite (scheduler-controlled runs of two real operations replayed on it). Schedules finer than the machine (a call taking effect inside AddBlock or inside the commit) and registry refreshes are monitored only: partial.",
   "ref": "DESIGN.md section 4, C16",
   "note": "partial: lock discipline + deadlock freedom over an extracted table (sound relative to the translator's syntactic rules); operation-level interleavings proved linearisable at the granularity of collaborator calls under the no-replacement-in-flight condition (refuted without it: known finding); registry refreshes and reads inside AddBlock/commit are monitored only; Go memory model not formalised",
   "technique": "Coq proof (Eraser-style lock-discipline and lock-order theorems over an abstract mutex semantics) instantiated on a table regenerated from source by a go/ast translator + race-detector stress runs",
